@@ -3,12 +3,15 @@ package udp
 import (
 	"bytes"
 	"fmt"
+	"runtime"
 	"sync"
+	"sync/atomic"
 	"testing"
 
 	"github.com/postalsys/muti-metroo/internal/crypto"
 	"github.com/postalsys/muti-metroo/internal/identity"
 	vp "github.com/postalsys/muti-metroo/internal/zzvp"
+	"golang.org/x/crypto/chacha20poly1305"
 	"pgregory.net/rapid"
 )
 
@@ -26,9 +29,23 @@ func vpC04Keys() (*crypto.SessionKey, *crypto.SessionKey) {
 	return crypto.DeriveSessionKey(s1, 7, apub, bpub, true), crypto.DeriveSessionKey(s2, 7, apub, bpub, false)
 }
 
+// vpC04TunnelKey is the raw key of the tunnel under test (set per case): every message the
+// exit side hands out must open under it - a message sealed under any other key (the zeroed
+// key of an association that is being closed, say) is readable by whoever knows that key.
+var vpC04TunnelKey [32]byte
+
 func vpC04Judge(out []byte, err error, p []byte) string {
 	if err != nil {
 		return ""
+	}
+	if len(out) >= crypto.EncryptionOverhead {
+		aead, _ := chacha20poly1305.New(vpC04TunnelKey[:])
+		if _, oerr := aead.Open(nil, out[:12], out[12:], nil); oerr != nil {
+			var zero [32]byte
+			z, _ := chacha20poly1305.New(zero[:])
+			_, zerr := z.Open(nil, out[:12], out[12:], nil)
+			return fmt.Sprintf("Encrypt returned a message that does not open under the tunnel's key (opens under the all-zero key: %v)", zerr == nil)
+		}
 	}
 	if len(p) >= 8 && bytes.Contains(out, p) {
 		return fmt.Sprintf("Encrypt returned the %d application bytes unsealed", len(p))
@@ -44,7 +61,7 @@ func TestVP_C04_ClosedAssociation(t *testing.T) {
 	defer st.Flush()
 	rapid.Check(t, func(rt *rapid.T) {
 		ingress, exit := vpC04Keys()
-		_ = ingress
+		vpC04TunnelKey = ingress.Key()
 		var peer identity.AgentID
 		peer[0] = 1
 		a := NewAssociation(3, 7, peer)
@@ -77,7 +94,7 @@ func TestVP_C04_ClosedAssociation(t *testing.T) {
 					go func(g int) {
 						defer wg.Done()
 						<-start
-						for k := 0; k < 20; k++ {
+						for k := 0; k < 200; k++ {
 							out, err := a.Encrypt(append([]byte(nil), p...))
 							if m := vpC04Judge(out, err, p); m != "" {
 								msgs[g] = m
@@ -102,7 +119,8 @@ func TestVP_C04_ClosedAssociation(t *testing.T) {
 
 // TestVPKnown_C04_closeRace replays the saved reproduction: a reply offered right after Close.
 func TestVPKnown_C04_closeRace(t *testing.T) {
-	_, exit := vpC04Keys()
+	ingress, exit := vpC04Keys()
+	vpC04TunnelKey = ingress.Key()
 	var peer identity.AgentID
 	a := NewAssociation(3, 7, peer)
 	a.SetSessionKey(exit)
@@ -113,4 +131,67 @@ func TestVPKnown_C04_closeRace(t *testing.T) {
 	if msg := vpC04Judge(out, err, p); msg != "" {
 		t.Fatalf("VPFAIL C04 exit-side UDP association closed, then a reply: %s", msg)
 	}
+}
+
+// TestVP_C04_CloseRace: many short races of Close against senders that are in the middle of
+// sealing (a reply being read while UDP_CLOSE, idle cleanup or a peer disconnect tears the
+// association down). Per case 200-600 fresh keyed associations; on each, 2-4 goroutines seal
+// continuously while Close lands after a generated number of spins.
+func TestVP_C04_CloseRace(t *testing.T) {
+	st := vp.NewStats("C04", "close-race", "200-600 fresh keyed udp.Association per case, each with 2-4 goroutines sealing 64-byte replies in a loop while Close is called after 0-2000 spins; every message Encrypt returned opens under the tunnel's key (never plaintext, never another key); non-trivial = always")
+	defer st.Flush()
+	rapid.Check(t, func(t *rapid.T) {
+		rounds := rapid.IntRange(200, 600).Draw(t, "rounds")
+		g := rapid.IntRange(2, 4).Draw(t, "senders")
+		maxSpin := rapid.SampledFrom([]int{0, 50, 500, 2000}).Draw(t, "maxSpin")
+		ingress, exit := vpC04Keys()
+		key := ingress.Key()
+		exitKey := exit.Key()
+		p := bytes.Repeat([]byte("reply-payload-64"), 4)
+		for r := 0; r < rounds; r++ {
+			// a fresh SessionKey object with the same key bytes would need the package's
+			// internals; a fresh pair per round is cheap enough
+			if r > 0 {
+				ingress, exit = vpC04Keys()
+				key, exitKey = ingress.Key(), exit.Key()
+			}
+			_ = exitKey
+			vpC04TunnelKey = key
+			var peer identity.AgentID
+			a := NewAssociation(3, 7, peer)
+			a.SetSessionKey(exit)
+			a.SetOpen()
+			var stop atomic.Bool
+			var wg sync.WaitGroup
+			msgs := make([]string, g)
+			for i := 0; i < g; i++ {
+				wg.Add(1)
+				go func(i int) {
+					defer wg.Done()
+					for !stop.Load() {
+						out, err := a.Encrypt(append([]byte(nil), p...))
+						if m := vpC04Judge(out, err, p); m != "" {
+							msgs[i] = m
+							return
+						}
+						if err != nil {
+							return
+						}
+					}
+				}(i)
+			}
+			for s := (r * 37) % (maxSpin + 1); s > 0; s-- {
+				runtime.Gosched()
+			}
+			a.Close()
+			stop.Store(true)
+			wg.Wait()
+			for _, m := range msgs {
+				if m != "" {
+					t.Fatalf("VPFAIL C04 exit-side UDP association, Close racing %d senders (round %d): %s", g, r+1, m)
+				}
+			}
+		}
+		st.Case(fmt.Sprintf("rounds=%d senders=%d maxSpin=%d", rounds, g, maxSpin), true)
+	})
 }
